@@ -128,7 +128,7 @@ class LinearModel(darsia.Model):
             parameters (np.ndarray): 2-array containing scaling and offset values.
 
         """
-        if dofs is None or dofs == ["all"] or set(dofs) == set(["scaling", "offset"]):
+        if dofs is None or dofs == "all" or set(dofs) == set(["scaling", "offset"]):
             self.update(scaling=parameters[0], offset=parameters[1])
         elif set(dofs) == set(["scaling"]):
             self.update(scaling=parameters[0])
